@@ -115,6 +115,8 @@ EqNext == UNCHANGED vars
 \*   FV  bystander programs  : use the names of FF's locals as globals / locals / undeclared names / labels
 \*   TX  programs whose built-ins compile or parse text at run time (regex literals, RegExp, string patterns, eval, ...)
 \*   PK  computed property keys : kind of the key value x converting construct x container x where the key comes from
+\*   EN  enumeration order   : sequence of property kinds (data / getter / setter / both) x how built x enumerating construct
+\*   EV  run-time compile sites : site x what the compiled text contains x what of the surrounding program is alive
 \*   H*  histories           : which programs are evaluated, in which order, on fresh contexts of ONE process, how often,
 \*                             and how much time passes between two evaluations
 \* ====================================================================================================================
@@ -492,17 +494,139 @@ PKGridLaw ==
   /\ \A k \in PKKeySet : PKName(k) \in PKProbeSet
 ASSUME PKGridLaw
 
+\* ======================= family EN: enumeration order of own properties (round 4) =======================================
+\* The hash seed reaches a program not only through the compiler's sets: every run-time container whose iteration a script
+\* can observe is a candidate.  Here: the own properties of an object, made of a SEQUENCE of property kinds (sh: data
+\* property, getter, setter, getter + setter - every sequence of length 2..4, so objects with no, one, two, ... accessors, next
+\* to each other or separated by data properties) x how the object is built (bd: object literal, or step by step with
+\* assignment / Object.defineProperty) x the construct that enumerates it (use: for-in, Object.keys / values / entries /
+\* assign, JSON.stringify, for-in over an object that inherits from it) x where (script level, a function called twice)
+\* x name length.  No expected value: what an enumeration lists is the object model's subject; judged here is that it is the
+\* same under every hash seed, in every order and on every clock (clause eq) and that it is a value (clause cls).
+ENKinds == {"d", "g", "s", "gs"}
+ENUses == {"forin", "keys", "values", "entries", "assign", "json", "inherit"}
+ENBuilds == {"lit", "def"}
+ENNames(ns) == IF ns = "short" THEN <<"a", "b", "c", "d">> ELSE <<"tag", "norm", "writes", "log">>
+ENShapes == UNION {[1..n -> ENKinds] : n \in 2..4}
+ENAcc(sh) == Cardinality({j \in 1..Len(sh) : sh[j] # "d"})
+ENGet(j) == "function () { return " \o SLNum(j * 10) \o "; }"
+ENSetF == "function (v) { w = w + 1; }"
+ENLitProp(kd, nm, j) ==
+  CASE kd = "d" -> nm \o ": " \o SLNum(j)
+    [] kd = "g" -> "get " \o nm \o "() { return " \o SLNum(j * 10) \o "; }"
+    [] kd = "s" -> "set " \o nm \o "(v) { w = w + 1; }"
+    [] kd = "gs" -> "get " \o nm \o "() { return " \o SLNum(j * 10) \o "; }, set " \o nm \o "(v) { w = w + 1; }"
+ENDefProp(kd, nm, j) ==
+  CASE kd = "d" -> "o." \o nm \o " = " \o SLNum(j) \o "; "
+    [] kd = "g" -> "Object.defineProperty(o, " \o TXQ(nm) \o ", {get: " \o ENGet(j) \o ", enumerable: true, configurable: true}); "
+    [] kd = "s" -> "Object.defineProperty(o, " \o TXQ(nm) \o ", {set: " \o ENSetF \o ", enumerable: true, configurable: true}); "
+    [] kd = "gs" -> "Object.defineProperty(o, " \o TXQ(nm) \o ", {get: " \o ENGet(j) \o ", set: " \o ENSetF \o ", enumerable: true, configurable: true}); "
+RECURSIVE ENLitR(_, _, _), ENDefR(_, _, _)
+ENLitR(sh, nm, j) == ENLitProp(sh[j], nm[j], j) \o (IF j = Len(sh) THEN "" ELSE ", " \o ENLitR(sh, nm, j + 1))
+ENDefR(sh, nm, j) == ENDefProp(sh[j], nm[j], j) \o (IF j = Len(sh) THEN "" ELSE ENDefR(sh, nm, j + 1))
+ENBuild(c) == "var w = 0; " \o (IF c.bd = "lit" THEN "var o = {" \o ENLitR(c.sh, ENNames(c.ns), 1) \o "}; " ELSE "var o = {}; " \o ENDefR(c.sh, ENNames(c.ns), 1))
+ENLoop(x) == "var r = \"\"; for (var k in " \o x \o ") { r = r + k + \",\"; } "
+\* statements, then the expression that shows the enumeration
+ENUseStm(u) == CASE u = "forin" -> ENLoop("o") [] u = "inherit" -> "var t = Object.create(o); " \o ENLoop("t") [] OTHER -> ""
+ENUseExp(u) == CASE u \in {"forin", "inherit"} -> "r" [] u = "keys" -> "Object.keys(o).join(\",\")" [] u = "values" -> "Object.values(o).join(\",\")"
+                 [] u = "entries" -> "Object.entries(o).join(\";\")" [] u = "assign" -> "Object.keys(Object.assign({}, o)).join(\",\")"
+                 [] u = "json" -> "JSON.stringify(o)"
+ENSrc(c) == IF c.pl = "top" THEN ENBuild(c) \o ENUseStm(c.use) \o "String(" \o ENUseExp(c.use) \o ");"
+            ELSE "function F() { " \o ENBuild(c) \o ENUseStm(c.use) \o "return String(" \o ENUseExp(c.use) \o "); } F() + \"|\" + F();"
+ENAll == [sh : ENShapes, bd : ENBuilds, use : ENUses, pl : {"top", "fn"}, ns : {"short", "long"}]
+ENValid(c) == (c.pl = "top") = (c.ns = "short")                      \* the two cosmetic dimensions move together
+ENRepShapes == {<<"d", "g", "s", "gs">>, <<"g", "g", "g", "g">>, <<"gs", "d", "s", "g">>, <<"s", "gs", "d", "d">>}
+\* quick: every sequence of up to three kinds under the literal / for-in; every construct x way of building for four sequences
+\* of four with two or more accessors (both name sets / places for for-in and Object.keys)
+ENQuickSel(c) ==
+  \/ (Len(c.sh) <= 3 /\ c.bd = "lit" /\ c.use = "forin" /\ c.pl = "top")
+  \/ (c.sh \in ENRepShapes /\ c.pl = "top")
+  \/ (c.sh \in ENRepShapes /\ c.use \in {"forin", "keys"} /\ c.bd = "lit")
+ENQuickCases == {c \in ENAll : ENValid(c) /\ ENQuickSel(c)}
+ENCases == IF Quick THEN ENQuickCases ELSE {c \in ENAll : ENValid(c)}
+ENGridLaw ==
+  /\ \A u \in ENUses, b \in ENBuilds : \E c \in ENQuickCases : c.use = u /\ c.bd = b /\ ENAcc(c.sh) >= 2
+  /\ \A sh \in ENShapes : Len(sh) <= 3 => \E c \in ENQuickCases : c.sh = sh
+  /\ \A k1, k2 \in ENKinds : \E c \in ENQuickCases : \E j \in 1..(Len(c.sh) - 1) : c.sh[j] = k1 /\ c.sh[j + 1] = k2
+  /\ \A n \in 0..4 : \E c \in ENQuickCases : ENAcc(c.sh) = n
+  /\ \A p \in {"top", "fn"} : \E c \in ENQuickCases : c.pl = p /\ ENAcc(c.sh) >= 2
+ASSUME ENGridLaw
+
+\* ======================= family EV: text compiled at run time x names the compiler invents (round 4) ===================
+\* TX has one indirect eval and one `new Function`, each with text that declares a variable.  Here: the site that compiles text
+\* at run time (site: eval called directly, indirectly, inside a function, as a callback of a built-in; Function with and
+\* without `new`) x what the compiled text contains (cons: a catch clause with the parameter name the surrounding program
+\* uses, with another name, two nested catch clauses, no catch clause) x what of the surrounding program is alive meanwhile
+\* (host: K catch clauses at script level whose parameters are read through closures afterwards; one clause in a function
+\* with K activations) x K x how often the site runs (m) x whether it runs after the clauses or inside the last handler.
+\* The result lists every parameter as its closure reads it at the end and what the compiled text saw; the expected
+\* string is computed here (EVExpect, clause val).  The histories HE evaluate a program alone in a pristine process (twice),
+\* and ordered pairs of programs: the first evaluation of a process, a later one, and one after another program's.
+EVSites == {"eval", "ieval", "evalfn", "evalcb", "newfn", "fncall"}
+EVConss == {"catch", "catchx", "catch2", "plain"}
+EVHosts == {"pcatch", "fcatch"}
+RECURSIVE EVRep(_, _)
+EVRep(t, n) == IF n = 0 THEN "" ELSE t \o EVRep(t, n - 1)
+EVText(cons) == CASE cons = "catch" -> "try { throw 'in'; } catch (e) { seen = seen + e + ';'; }"
+                  [] cons = "catchx" -> "try { throw 'in'; } catch (x) { seen = seen + x + ';'; }"
+                  [] cons = "catch2" -> "try { throw 'in'; } catch (e) { try { throw e + '2'; } catch (e) { seen = seen + e + ';'; } }"
+                  [] cons = "plain" -> "seen = seen + 'in;';"
+EVSaw(cons) == IF cons = "catch2" THEN "in2;" ELSE "in;"
+EVCall(site) == CASE site = "eval" -> "eval(T); " [] site = "ieval" -> "(1, eval)(T); " [] site = "evalfn" -> "G(); "
+                  [] site = "evalcb" -> "[T].forEach(eval); " [] site = "newfn" -> "new Function(T)(); " [] site = "fncall" -> "Function(T)(); "
+EVCalls(c) == EVRep(EVCall(c.site), c.m)
+EVPush == "rd.push(function () { return e; }); "
+RECURSIVE EVClauses(_, _)
+EVClauses(c, j) == IF j > c.K THEN ""
+                   ELSE "try { throw \"o" \o SLNum(j) \o "\"; } catch (e) { " \o EVPush \o (IF j = c.K /\ c.when = "inside" THEN EVCalls(c) ELSE "") \o "} "
+                        \o EVClauses(c, j + 1)
+RECURSIVE EVActs(_, _)
+EVActs(c, j) == IF j > c.K THEN "" ELSE "H(\"o" \o SLNum(j) \o "\"); " \o EVActs(c, j + 1)
+EVHostText(c) == IF c.host = "pcatch" THEN EVClauses(c, 1)
+                 ELSE "function H(t) { try { throw t; } catch (e) { " \o EVPush \o (IF c.when = "inside" THEN EVCalls(c) ELSE "") \o "} } " \o EVActs(c, 1)
+EVSrc(c) == "var rd = []; var seen = \"\"; var T = " \o TXQ(EVText(c.cons)) \o "; " \o (IF c.site = "evalfn" THEN "function G() { eval(T); } " ELSE "")
+            \o EVHostText(c) \o (IF c.when = "after" THEN EVCalls(c) ELSE "")
+            \o "var r = \"\"; for (var i = 0; i < rd.length; i++) { r = r + rd[i]() + \",\"; } r + \"|\" + seen;"
+RECURSIVE EVOuter(_, _)
+EVOuter(j, K) == IF j > K THEN "" ELSE "o" \o SLNum(j) \o "," \o EVOuter(j + 1, K)
+EVExpect(c) == EVOuter(1, c.K) \o "|" \o EVRep(EVSaw(c.cons), c.m * (IF c.host = "fcatch" /\ c.when = "inside" THEN c.K ELSE 1))
+EVAll == [site : EVSites, cons : EVConss, host : EVHosts, K : 1..3, m : 1..3, when : {"after", "inside"}]
+\* quick: every site x text x surrounding program with one clause and one run; every K x m for two sites; the handler position
+\* for every site and surrounding program; nested clauses under three live parameters for every site
+EVQuickSel(c) ==
+  \/ (c.K = 1 /\ c.m = 1 /\ c.when = "after")
+  \/ (c.site \in {"eval", "newfn"} /\ c.cons = "catch" /\ c.host = "pcatch" /\ c.when = "after")
+  \/ (c.cons = "catch" /\ c.K = 2 /\ c.m = 2 /\ c.when = "inside")
+  \/ (c.cons = "catch2" /\ c.host = "pcatch" /\ c.K = 3 /\ c.m = 2 /\ c.when = "after")
+EVQuickCases == {c \in EVAll : EVQuickSel(c)}
+EVCases == IF Quick THEN EVQuickCases ELSE EVAll
+\* HE: one program alone (the list twice: the first evaluation of the process and a later one), or two programs one after the other
+EVPairSel(c) == c.K = 1 /\ c.m = 1 /\ c.when = "after" /\ c.host = "pcatch" /\ c.cons \in {"catch", "plain"}
+HEOnes == {[n |-> 1, p1 |-> c, p2 |-> c, clk |-> IF c.m = 2 THEN "gap" ELSE "b2b"] : c \in EVCases}
+HETwos == {[n |-> 2, p1 |-> c1, p2 |-> c2, clk |-> IF c1.cons = c2.cons THEN "b2b" ELSE "gap"] :
+             <<c1, c2>> \in {pr \in EVCases \X EVCases : EVPairSel(pr[1]) /\ EVPairSel(pr[2]) /\ pr[1] # pr[2]
+                                                         /\ (Quick => pr[1].cons = "catch" \/ pr[2].cons = "catch")}}
+HECases == HEOnes \cup HETwos
+HEItems(h) == IF h.n = 1 THEN <<[fam |-> "EV", c |-> h.p1]>> ELSE <<[fam |-> "EV", c |-> h.p1], [fam |-> "EV", c |-> h.p2]>>
+EVGridLaw ==
+  /\ \A s \in EVSites, x \in EVConss, h \in EVHosts : \E c \in EVQuickCases : c.site = s /\ c.cons = x /\ c.host = h
+  /\ \A K \in 1..3, m \in 1..3 : \E c \in EVQuickCases : c.K = K /\ c.m = m /\ c.cons = "catch" /\ c.host = "pcatch"
+  /\ \A s \in EVSites, h \in EVHosts : \E c \in EVQuickCases : c.site = s /\ c.host = h /\ c.when = "inside"
+  /\ \A c \in EVQuickCases : \E h \in {x \in HEOnes : x.p1 \in EVQuickCases} : h.p1 = c
+  /\ \A s1, s2 \in EVSites : s1 # s2 => \E c1, c2 \in EVQuickCases : c1.site = s1 /\ c2.site = s2 /\ EVPairSel(c1) /\ EVPairSel(c2) /\ c1.cons = "catch" /\ c2.cons = "catch"
+ASSUME EVGridLaw
+
 \* ======================= programs and histories ============================================================================
 ProgItems == {[fam |-> "CO", c |-> c] : c \in COCases} \cup {[fam |-> "WS", c |-> c] : c \in WSCases} \cup {[fam |-> "FF", c |-> c] : c \in FFCases}
              \cup {[fam |-> "FV", c |-> [kd |-> kd]] : kd \in FVKinds} \cup {[fam |-> "TX", c |-> c] : c \in TXrCases}
-             \cup {[fam |-> "PK", c |-> c] : c \in PKCases}
+             \cup {[fam |-> "PK", c |-> c] : c \in PKCases} \cup {[fam |-> "EN", c |-> c] : c \in ENCases} \cup {[fam |-> "EV", c |-> c] : c \in EVCases}
 ItemId(it) == it                              \* the parameter record itself (printed as JSON; the driver uses it as a key)
-ItemAst(it) == it.fam \notin {"TX", "PK"}
+ItemAst(it) == it.fam \notin {"TX", "PK", "EN", "EV"}
 ItemProg(it) == CASE it.fam = "CO" -> COProg(it.c) [] it.fam = "WS" -> WSProg(it.c) [] it.fam = "FF" -> FFProg(it.c) [] it.fam = "FV" -> FVProg(it.c.kd) [] OTHER -> Prog(<<>>)
 ItemRef(it) == CASE it.fam \in {"CO", "WS"} -> TRUE [] it.fam = "FF" -> FFRef(it.c) [] it.fam = "FV" -> ~FVIsExit(it.c.kd) [] OTHER -> FALSE
-ItemExp(it) == CASE it.fam \in {"CO", "WS"} -> "value" [] it.fam = "FF" -> FFExp(it.c) [] it.fam = "FV" -> FVExp(it.c.kd) [] it.fam = "PK" -> "value" [] OTHER -> ""
+ItemExp(it) == CASE it.fam \in {"CO", "WS"} -> "value" [] it.fam = "FF" -> FFExp(it.c) [] it.fam = "FV" -> FVExp(it.c.kd) [] it.fam \in {"PK", "EN", "EV"} -> "value" [] OTHER -> ""
 \* the value the specification prescribes for the program ("": the outcome class only, or the reference machine decides)
-ItemXv(it) == IF it.fam = "PK" THEN PKExpect(it.c) ELSE ""
+ItemXv(it) == IF it.fam = "PK" THEN PKExpect(it.c) ELSE IF it.fam = "EV" THEN EVExpect(it.c) ELSE ""
 \* A history: programs evaluated one after the other, each on a fresh context, in one process that evaluated nothing before;
 \* the whole list `rounds` times; clk = "b2b": the clock only moves while a program runs, "gap": between two evaluations
 \* more time passes than any context's time limit.
@@ -523,14 +647,14 @@ TXOfPat(pat) == IF pat = 0 THEN {c \in TXrCases : c.k = "x"} ELSE {c \in TXrCase
 HTCases == [pat : 0..Len(TXPats), rot : IF Quick THEN {0} ELSE {0, 5}, clk : {"b2b", "gap"}]
 SXQ == INSTANCE SequencesExt
 HTItems(h) == LET sq == SXQ!SetToSeq({ItemId([fam |-> "TX", c |-> c]) : c \in TXOfPat(h.pat)}) IN Rot(sq, h.rot % Len(sq))
-HistItems == {[fam |-> "HF", c |-> h] : h \in HFCases} \cup {[fam |-> "HT", c |-> h] : h \in HTCases} \cup {[fam |-> "HK", c |-> h] : h \in HKCases}
-IsHist(it) == it.fam \in {"HF", "HT", "HK"}
+HistItems == {[fam |-> "HF", c |-> h] : h \in HFCases} \cup {[fam |-> "HT", c |-> h] : h \in HTCases} \cup {[fam |-> "HK", c |-> h] : h \in HKCases} \cup {[fam |-> "HE", c |-> h] : h \in HECases}
+IsHist(it) == it.fam \in {"HF", "HT", "HK", "HE"}
 C15Items == ProgItems \cup HistItems
 ItemJson(it, steps) ==
   IF IsHist(it)
-  THEN [kind |-> "hist", id |-> ItemId(it), fam |-> it.fam, items |-> IF it.fam = "HF" THEN HFItems(it.c) ELSE IF it.fam = "HK" THEN HKItems(it.c) ELSE HTItems(it.c), rounds |-> 2, clk |-> it.c.clk]
+  THEN [kind |-> "hist", id |-> ItemId(it), fam |-> it.fam, items |-> IF it.fam = "HF" THEN HFItems(it.c) ELSE IF it.fam = "HK" THEN HKItems(it.c) ELSE IF it.fam = "HE" THEN HEItems(it.c) ELSE HTItems(it.c), rounds |-> 2, clk |-> it.c.clk]
   ELSE [kind |-> "prog", id |-> ItemId(it), fam |-> it.fam, par |-> it.c, ast |-> ItemAst(it), prog |-> ItemProg(it),
-        src |-> IF it.fam = "TX" THEN TXText(it.c) ELSE IF it.fam = "PK" THEN PKSrc(it.c) ELSE "", ref |-> ItemRef(it), exp |-> ItemExp(it), xv |-> ItemXv(it),
+        src |-> IF it.fam = "TX" THEN TXText(it.c) ELSE IF it.fam = "PK" THEN PKSrc(it.c) ELSE IF it.fam = "EN" THEN ENSrc(it.c) ELSE IF it.fam = "EV" THEN EVSrc(it.c) ELSE "", ref |-> ItemRef(it), exp |-> ItemExp(it), xv |-> ItemXv(it),
         ml |-> IF it.fam = "FF" THEN FFMem(it.c) ELSE 0, steps |-> steps]
 \* Enum15: every program MiniJS can run runs on the reference machine (its invariants on every state, termination inside the
 \* fragment); the others and the histories are printed as they are
